@@ -75,14 +75,29 @@ def regenerate() -> tuple[bool, str]:
     return rc == 0, out.strip()
 
 
+def prop_modules(prop: str) -> list[str]:
+    """Props/Cxx.lean plus its satellite files Props/Cxx<suffix>.lean (e.g. C02lex, C13name)"""
+    d = LEAN / "DictIO" / "Props"
+    return sorted(f.stem for f in d.glob(f"{prop}*.lean") if re.fullmatch(re.escape(prop) + r"[a-z]*", f.stem))
+
+
 def theorem_names(prop: str) -> list[str]:
-    f = LEAN / "DictIO" / "Props" / f"{prop}.lean"
-    if not f.exists():
-        return []
-    src = strip_comments(f.read_text())
-    ns = re.findall(r"^namespace\s+(\S+)", src, re.M)
-    prefix = (ns[0] + ".") if ns else ""
-    return [prefix + n for n in re.findall(r"^\s*theorem\s+([^\s:({\[]+)", src, re.M)]
+    out = []
+    for mod in prop_modules(prop):
+        src = strip_comments((LEAN / "DictIO" / "Props" / f"{mod}.lean").read_text())
+        # namespaces may be nested / re-opened: track them line by line
+        stack: list[str] = []
+        for line in src.splitlines():
+            m = re.match(r"^\s*namespace\s+(\S+)", line)
+            if m:
+                stack.append(m.group(1)); continue
+            m = re.match(r"^\s*end\s+(\S+)\s*$", line)
+            if m and stack and stack[-1].split(".")[-1] == m.group(1).split(".")[-1]:
+                stack.pop(); continue
+            m = re.match(r"^\s*(?:private\s+|protected\s+)?theorem\s+([^\s:({\[]+)", line)
+            if m and not re.match(r"^\s*private", line):
+                out.append(".".join(stack + [m.group(1)]) if stack else m.group(1))
+    return out
 
 
 def build_and_audit(prop: str) -> dict:
@@ -95,7 +110,7 @@ def build_and_audit(prop: str) -> dict:
         res["driver_ok"] = rc_d == 0
         if rc_d != 0:
             res["messages"].append("driver build failed:\n" + "\n".join(l for l in out_d.splitlines() if "error" in l)[:2000])
-        rc_p, out_p = sh(["lake", "build", f"DictIO.Props.{prop}"], LEAN)
+        rc_p, out_p = sh(["lake", "build"] + [f"DictIO.Props.{m}" for m in prop_modules(prop)], LEAN)
         if rc_p != 0:
             errs = [l for l in out_p.splitlines() if re.search(r"error", l)]
             res["messages"].append(f"lake build DictIO.Props.{prop} failed:\n" + "\n".join(errs)[:3000])
@@ -114,7 +129,7 @@ def build_and_audit(prop: str) -> dict:
             res["messages"].append("no theorems found")
             return res
         audit = LEAN / ".lake" / f"audit_{prop}.lean"
-        audit.write_text(f"import DictIO.Props.{prop}\n" + "".join(f"#print axioms {n}\n" for n in names))
+        audit.write_text("".join(f"import DictIO.Props.{m}\n" for m in prop_modules(prop)) + "".join(f"#print axioms {n}\n" for n in names))
         rc_a, out_a = sh(["lake", "env", "lean", str(audit)], LEAN)
     cur = None
     axioms: dict[str, list[str] | None] = {}
